@@ -58,7 +58,7 @@ def events_for(case, res, tid):
     inrecs = input_records(case)
     need = sorted(set(r['ref'] for r in inrecs))
     base = {'tid': tid, 'mode': case['mode'], 'method': case['method'], 'threads': case['threads'], 'shape': tg.shape(case['layout']),
-            'layout': desc, 'bamseed': case['bamseed'], 'no_rejects': case['no_rejects']}
+            'layout': desc, 'bamseed': case['bamseed'], 'no_rejects': case['no_rejects'], 'history': case.get('history', '')}
     plan = [e for e in pe if e['ev'] == 'plan']
     idx = [e for e in pe if e['ev'] == 'idxstats']
     if plan:
@@ -148,13 +148,29 @@ def main():
             # both mates in the file but delivered one by one: R2 mapped / R1 unmapped, mates on different contigs, both unmapped
             (L(('chr1', 250_000, ['half_r1u', 'cross', 'pair']), ('chrM', 2500, ['single', 'unmapped_placed_pair', 'cross']),
                ('chr2', 100_000, ['half', 'pair_rev'])), False),
+            # falsy-but-valid and boundary values: coordinate 0, last base of the contig, phred 0, lane '0', N bases, CIGAR
+            # operations other than M, reads with SM/RX only
+            (L(('chrM', 2500, ['pos0', 'cigar', 'minimal_tags', 'contig_end']), ('chr1', 100_000, ['pos0', 'pair', 'cigar', 'contig_end']),
+               ('chr1_alt', 99_999, ['contig_end']), ('1', 250_000, ['minimal_tags', 'pos0'])), False),
+            (L(('chr1', 100_000, ['pos0', 'cigar', 'nomotif', 'contig_end']), ('chr11', 40_000, ['cigar', 'orphan_r2'])), True),
         ]
-        directed[-1][0]['star'] = ['unplaced_pair', 'unplaced_single']
+        directed[-3][0]['star'] = ['unplaced_pair', 'unplaced_single']
         for k, (lay, nr) in enumerate(directed):
             for method in (['nla', 'chic'] if not nr else ['nla']):
                 bs = rng.randrange(1 << 30)
                 add(lay, method, 'single', 1, nr, bamseed=bs)
                 add(lay, method, 'multi', 1 + k % 3, nr, bamseed=bs)
+        # (6) history: the same process first tags ANOTHER input into the same output path (other contigs, other read groups,
+        #     more records), then this one - nothing of the first call may leak into the second
+        for k, (method, mode) in enumerate([('nla', 'single'), ('chic', 'multi'), ('qflag', 'single'), ('nla', 'multi')]):
+            first = tg.random_layout(rng, max_contigs=4)
+            second = tg.random_layout(rng, max_contigs=3) if k != 2 else {'contigs': [{'name': 'chrE', 'len': 5000, 'big': False, 'kinds': []}], 'star': []}
+            add(second, method, mode, 2, False)
+            c2 = cases[-1]
+            other = os.path.join(os.path.dirname(c2['inp']), 'first.bam')
+            tg.write(other, first, random.Random(rng.randrange(1 << 30)), method)
+            c2['prerun_argv'] = [other] + c2['argv'][1:]
+            c2['history'] = 'second_call_same_process'
         # (4) one contig with more fragments than the molecule iterator's ejection interval (check_eject_every = 10 000):
         #     molecules are ejected while reading, not only at the end
         for k in range(1 if tier == 'quick' else 3):
